@@ -234,7 +234,9 @@ class NDNApp:
                              validator: Validator | None = None,
                              need_raw_packet: bool = False
                              ) -> Coroutine[Any, None, tuple[FormalName, MetaInfo, BinaryStr | None]]:
-        final_name = Name.normalize(final_name)
+        # The name (and the implicit digest in it) is kept until the Interest finishes:
+        # do not keep views of buffers the caller may reuse after this call
+        final_name = [bytes(comp) for comp in Name.normalize(final_name)]
         future = aio.get_running_loop().create_future()
         if (Component.get_type(final_name[-1]) == Component.TYPE_IMPLICIT_SHA256
                 and len(Component.get_value(final_name[-1])) == 32):
